@@ -33,7 +33,7 @@ def gen_call(tape, pool_size, term_of, ctx_symbols, richgen, ctx):
              (1, "cnf"), (1, "prenex"), (1, "aig"), (1, "get_type"), (2, "build"), (1, "fresh"),
              (1, "model_value"), (1, "parse_smtlib"), (1, "parse_hr"), (1, "qelim")]
     kinds = kinds + [(2, "substitute_shared"), (2, "parse_long"), (2, "foreign"), (1, "script_serialize"),
-                     (2, "resimplify")]
+                     (2, "resimplify"), (2, "model_value_shared")]
     k = tape.weighted(kinds, "call.kind")
     i = tape.draw(pool_size, "call.formula")
     spec = {"call": k, "i": i}
@@ -178,6 +178,10 @@ def perform(env, spec, f, term, user_symbols):
         if s.symbol_name() in existing:
             return ("fresh-collides", s.symbol_name())
         return "fresh-symbol-of-type:%s" % s.symbol_type()
+    if k == "model_value_shared":
+        # the client keeps ONE model object (a partial assignment, so completion is needed) and
+        # evaluates formula after formula with it
+        return spec["_model"].get_value(f)
     if k == "model_value":
         from pysmt.solvers.eager import EagerModel
         assign = {}
@@ -286,6 +290,25 @@ def _subterms(t, acc=None):
     for a in bp.args_of(t):
         _subterms(a, acc)
     return acc
+
+
+def partial_model(env, symbols):
+    """an EagerModel assigning only the symbols whose name has even length (the rest is completed)"""
+    from pysmt.solvers.eager import EagerModel
+    mgr = env.formula_manager
+    assign = {}
+    for n, srt in symbols.items():
+        if len(n) % 2:
+            continue
+        if srt == bp.BOOL:
+            assign[mgr.Symbol(n)] = mgr.Bool(True)
+        elif srt == bp.INT:
+            assign[mgr.Symbol(n, bp.to_pysmt_type(srt, env))] = mgr.Int(len(n) + 2)
+        elif srt == bp.REAL:
+            assign[mgr.Symbol(n, bp.to_pysmt_type(srt, env))] = mgr.Real((3, 2))
+        elif bp.is_bv(srt):
+            assign[mgr.Symbol(n, bp.to_pysmt_type(srt, env))] = mgr.BV(1, srt[1])
+    return EagerModel(assign, env)
 
 
 def parse_smtlib_term(env, text, symbols):
